@@ -123,7 +123,18 @@ def arrays_equal_term(a, b):
     a, b = np.asarray(a, dtype=object), np.asarray(b, dtype=object)
     if a.shape != b.shape:
         return z3.BoolVal(False), f"shape {b.shape} vs {a.shape}"
-    cs = [lift(x) == lift(y) for x, y in zip(a.ravel(), b.ravel())]
+    import math
+
+    cs = []
+    for x, y in zip(a.ravel(), b.ravel()):
+        xf = isinstance(x, (float, np.floating)) and not math.isfinite(float(x))
+        yf = isinstance(y, (float, np.floating)) and not math.isfinite(float(y))
+        if xf or yf:
+            # NaN / +-inf are concrete special values: they must come back as the same special value
+            same = xf and yf and ((math.isnan(float(x)) and math.isnan(float(y))) or float(x) == float(y))
+            cs.append(z3.BoolVal(bool(same)))
+        else:
+            cs.append(lift(x) == lift(y))
     return (z3.And(*cs) if cs else z3.BoolVal(True)), ""
 
 
